@@ -324,3 +324,31 @@ def drop_zeros(work, V, tier='thorough'):
                 V.note('mechanism-drift: drop_leading_zeros(%r): model %r, code %r' % (k, finals[k], g))
     out = [] if tier == 'quick' else [{'module': 'DropZeros', 'cfg': 'MC_DropZeros.cfg', 'distinct_states': ok['distinct'], 'violation': ok['violation']}]
     return out + [{'module': 'DropZeros', 'cfg': 'MC_DropZeros_bind.cfg', 'distinct_states': b['distinct'], 'violation': b['violation'], 'strings_evaluated_by_code': len(keys), 'drift': drift}]
+
+
+def preprocess(work, V, tier='thorough'):
+    """Preprocess.tla: QueryProcessor.preprocess keeps every code point position (recode, length-preserving lower-casing,
+    unit letters restored for the case-sensitive models) for every string of up to five characters over the stand-in
+    alphabet; the plain str.lower() of the code before the fix must fail; every string of up to four characters x both
+    modes is processed by the real function."""
+    ok = {'ok': True, 'distinct': 0, 'violation': None} if tier == 'quick' else tlc.run(work, 'Preprocess', cfg='MC_Preprocess.cfg', timeout=1800)
+    old = tlc.run(work, 'Preprocess', cfg='MC_Preprocess_prefix.cfg', timeout=600)
+    b = tlc.run(work, 'Preprocess', cfg='MC_Preprocess_bind.cfg', dump=True, timeout=900)
+    for r, name in ((ok, 'MC_Preprocess'), (b, 'MC_Preprocess_bind')):
+        if not r['ok']:
+            V.note('mechanism-drift: Preprocess/%s violates %s' % (name, r['violation']))
+    finals = {}
+    for st in tlc.read_dump(b['dump'], where='pc = "done"'):
+        finals[(st['src'], st['sensitive'])] = st['out']
+    keys = sorted(finals)
+    obs = pool.run_cases([{'api': 'preprocess', 'items': [[t, sv] for t, sv in keys]}], init_name='text', batch=1, timeout=120.0)
+    got = obs[0].get('out') or []
+    drift = 0
+    for k, g in zip(keys, got + [None] * (len(keys) - len(got))):
+        if g != finals[k]:
+            drift += 1
+            if drift <= 3:
+                V.note('mechanism-drift: preprocess(%r, case_sensitive=%s): model %r, code %r' % (k[0], k[1], finals[k], g))
+    out = [] if tier == 'quick' else [{'module': 'Preprocess', 'cfg': 'MC_Preprocess.cfg', 'distinct_states': ok['distinct'], 'violation': ok['violation']}]
+    return out + [{'module': 'Preprocess', 'cfg': 'MC_Preprocess_prefix.cfg (plain str.lower(), before the fix)', 'distinct_states': old['distinct'], 'violation': old['violation'], 'expected_violation': 'SameLength'},
+                  {'module': 'Preprocess', 'cfg': 'MC_Preprocess_bind.cfg', 'distinct_states': b['distinct'], 'violation': b['violation'], 'strings_processed_by_code': len(keys), 'drift': drift}]
